@@ -109,6 +109,17 @@ def run(chk):
     tcfg = cfg("trace_aggressive_2", spec="TraceSpec", post=True, Updaters="{1,2,3}", CKeys="{1,2}", MaxFlushes=99, Mode='"Aggressive"')
     total += vlib.validate_concat(chk, SPEC, "TraceDsdAgg", tcfg, tr2, "replayed TLC behaviours", KNOWN)
     chk.notes["replay"] = s2
+    # raw histograms vs flush at the granularity of the bucket's atomic operations: the recorder / State::flush path is
+    # driven under the scheduler and the run is validated against Bucket.tla (C05's specification): every recorded value
+    # is sent by exactly one flush or is still in the bucket (CF05a losses are accounted for exactly)
+    tr4 = chk.path("hist.ndjson")
+    rc, out, s4 = vlib.harness("c10", ["hist", "--runs", 1000 if thorough else 150, "--out", tr4], env=env)
+    if rc != 0 or not s4:
+        chk.tool_error("c10 hist failed", out)
+    total += vlib.validate_concat(chk, "Bucket", "TraceBucket", "TraceBucket.cfg", tr4,
+                                  "histogram record vs flush (bucket granularity)", {"CF05a": "CF05a", "CF05c": "CF05c"}, timeout=3000)
+    chk.cov["distinct_nontrivial"] += s4["distinct"]
+    chk.notes["hist"] = s4
     # black-box end to end: real exporter thread, real sockets (udp, unixgram, unix stream)
     tr3 = chk.path("e2e.ndjson")
     rc, out, s3 = vlib.harness("c10", ["e2e", "--runs", 18 if thorough else 6, "--out", tr3, "--dir", chk.work], env=env, timeout=900)
